@@ -101,7 +101,7 @@ for args in T.probes(qual, file):
             r = transactions.TxWitnessInput(args[0]).to_bytes()
         elif qual == "Transaction.to_bytes":
             nin, nout, wits, hs = args
-            ins = [transactions.TxInput("%064x" % (i + 1), i, script.Script(["aa" * (i % 3)] if i % 3 else [])) for i in range(nin)]
+            ins = [transactions.TxInput("{:064x}".format(i + 1), i, script.Script(["aa" * (i - 3 * (i // 3))] if (i - 3 * (i // 3)) else [])) for i in range(nin)]
             outs = [transactions.TxOutput(1000 + i, script.Script(["OP_1", "bb" * 20])) for i in range(nout)]
             tx = transactions.Transaction(ins, outs, has_segwit=True, witnesses=[transactions.TxWitnessInput(w) for w in wits])
             r = tx.to_bytes(hs)
